@@ -95,6 +95,12 @@ def run(db, chk):
             for c in comp:
                 r |= g.reach_from(c.block, avoid_edges=good)
             chk.ob("all-entries-validated", "editor: no continuation without Ok", l["header"] not in r and not any(s.block in r for s in sinks), "an entry can fail validation and the tree is still written", comp[0].where(), key="all-entries-validated|cut")
+            # every entry is looked at: inside the loop no path leads from the header back to it (the next entry) without passing the validation -
+            # e.g. a `continue` for sub-tree entries would let dangerous DIRECTORY names through, which exist only as entries of their parent
+            byp = g.reach_from(l["header"], avoid=[c.block for c in comp])
+            srcs_ = {s_ for (s_, h_) in l["backedges"]}
+            chk.ob("all-entries-validated", "editor: every iteration passes the validation", not (srcs_ & byp & l["body"]),
+                   "an entry can be skipped without having been validated (a path from the loop header to the next iteration bypasses gix_validate::path::component)", comp[0].where(), key="all-entries-validated|every-iteration")
             it = [c for c in g.calls() if c.is_(r"IntoIterator>?::into_iter$") and g.dominates(c.block, l["header"])]
             chk.ob("all-entries-validated", "editor: iterates tree.entries", any(any(".entries" in str(r_) for r_ in gfl.roots(c.args[0], stop_named=False)) for c in it), "", comp[0].where(), key="all-entries-validated|entries")
         for c in comp:
